@@ -427,6 +427,10 @@ func vGenTrigger(tp *verifsim.Tape, seq int) *vTrig {
 }
 
 func vScenarioC06(rc *runCtx) {
+	if rc.param("relaycc", "0") == "1" {
+		vC06RelayCC(rc)
+		return
+	}
 	if rc.param("relaymode", "0") == "1" {
 		vC06Relay(rc)
 		return
